@@ -11,7 +11,9 @@ from __future__ import annotations
 import ast
 import asyncio
 import json
+import os
 import pathlib
+import signal
 from typing import Any, Callable
 
 from kv import coqio as cq, fakeapi, framework as fw, sim
@@ -294,7 +296,17 @@ def run_scenario(sc: dict) -> Result:
         def fire(kind: str) -> None:
             res.trigger_t = w.now
             res.trigger_order = api.next_order()
-            if kind == 'stop':
+            if kind == 'stop' and trig.get('via') == 'signal' and inc.task is not None and inc.task.done():
+                pass        # the operator has returned already (e.g. a failed startup): no process left to signal
+            elif kind == 'stop' and trig.get('via') == 'signal':
+                # a real SIGTERM to this process: asyncio's handler (installed by spawn_tasks on this loop) sets signal_flag.
+                # The stepped loop only polls its selector when it is stepped, so one step is forced right away.
+                if signal.getsignal(signal.SIGTERM) in (signal.SIG_DFL, signal.SIG_IGN, None):
+                    raise RuntimeError('observation point missing: spawn_tasks installed no SIGTERM handler on the loop')
+                rec.add('signal')
+                os.kill(os.getpid(), signal.SIGTERM)
+                w.loop.step()
+            elif kind == 'stop':
                 rec.add('stopflag')
                 inc.stop()
             elif kind == 'cancel':
@@ -560,6 +572,10 @@ def translate(res: Result) -> Translation:
             emit(f"Api {o['term']}", e)
         elif ev == 'stopflag':
             emit('StopFlag', e)
+        elif ev == 'signal':
+            emit('Signal', e)
+            if tphase.get('(TRoot RStopper)') == 'run':
+                tphase['(TRoot RStopper)'] = 'ending'
         elif ev == 'cancel_req':
             st['pending_cancel'] = True
         elif ev == 'ready':
@@ -804,6 +820,36 @@ def monitors(ctx: fw.Ctx, res: Result, tr: Translation) -> None:
                 ctx.fail('the ready flag was raised before a startup handler had finished', case, observed=c['handler'], sig='ready-before-startup')
     elif startup_ok and not (trig['kind'] in ('stop', 'cancel') and trig.get('at', 0) <= (st_end[0]['t'] if st_end else 0)):
         ctx.fail('startup succeeded but the ready flag was never raised', case, sig='never-ready')
+    # --- a stop request (flag, signal, cancellation) while the startup activity is still running (slow, retrying, ...):
+    #     the unchanged operator abandons the startup at once ("only partially executed"), never goes on to the API, never
+    #     raises the ready flag, runs no cleanup, and returns within the hung-tasks grace (5 s; 0 s unless a signal left
+    #     the stop-flag waiter pending)
+    during_startup = (trig['kind'] in ('stop', 'cancel') and not trig.get('second') and res.trigger_order is not None
+                      and bool(STARTUPS[sc['startup']]) and not [e for e in st_end if e['order'] < res.trigger_order])
+    if during_startup:
+        T = res.trigger_t
+        how = trig.get('via', 'flag') if trig['kind'] == 'stop' else 'cancellation'
+        obs0 = {'trigger': how, 'at': T}
+        for c in startups:
+            if c['t'] > T:
+                ctx.fail('a startup handler was invoked after the stop request', case, observed={**obs0, 'handler': c['handler'], 'invoked_at': c['t']},
+                         sig='startup-continued-after-stop')
+            elif c['ended'] is None or c['ended'] > T:
+                ctx.fail('a startup handler kept running after the stop request', case, observed={**obs0, 'handler': c['handler'], 'ended': c['ended']},
+                         sig='startup-continued-after-stop')
+        if reqs:
+            ctx.fail('API activity started although a stop was requested during startup', case,
+                     observed={**obs0, 'request': reqs[0].brief()}, sig='api-after-stop-during-startup')
+        if ready:
+            ctx.fail('the ready flag was raised although a stop was requested during startup', case,
+                     observed={**obs0, 'ready_at': ready[0]['t']}, sig='ready-after-stop-during-startup')
+        if cleanups:
+            ctx.fail('cleanup handlers ran although the startup was abandoned by a stop request', case,
+                     observed={**obs0, 'cleanup': cleanups[0]['handler'], 'at': cleanups[0]['t']}, sig='cleanup-after-stop-during-startup')
+        if ret and ret[0]['t'] - T > 5.5:
+            ctx.fail('a stop request during startup was not followed by a return within the hung-tasks grace', case,
+                     observed={**obs0, 'returned_after_s': ret[0]['t'] - T}, expected='<= 5 s', sig='slow-exit-during-startup')
+        ctx.count('observed', f'stop-during-startup:{how}')
     if perm_startup and ready:
         ctx.fail('the ready flag was raised although a startup handler had failed for good', case,
                  observed={'handler': perm_startup[0]['handler'], 'failed_at': perm_startup[0]['ended'], 'ready_at': ready[0]['t']},
@@ -1104,6 +1150,20 @@ def grid(ctx: fw.Ctx) -> list[dict]:
             if ds != 'ignores':    # (a daemon that swallows the only cancellation it ever gets blocks the exit: by design)
                 add(daemons=ds, objects=0, trigger={'kind': kind, 'at': 10, 'create_at_trigger': True})
                 add(daemons=ds, objects=1, handler_duration=2, trigger={'kind': kind, 'at': 10, 'create_at_trigger': True, 'settled': True})
+    # 2a. flag-type stop triggers INSIDE the startup phase (slow handler, between two handlers, in a retry delay), as the
+    #     stop flag and as a real SIGTERM through signal_flag; and the signal after startup
+    for startup, at in (('slow', 0.5), ('slow', 5.5), ('ok', 0.25), ('two', 0.5), ('two', 1), ('two', 3.5), ('retried', 0.5),
+                        ('retried', 1.5), ('retried', 3.25), ('all-retried-ok', 2.5), ('all-retried-ok', 5.5)):
+        for ds in ('none', 'obeys'):
+            add(startup=startup, daemons=ds, trigger={'kind': 'stop', 'at': at})
+            add(startup=startup, daemons=ds, trigger={'kind': 'stop', 'via': 'signal', 'at': at})
+        add(startup=startup, peering=True, trigger={'kind': 'stop', 'at': at})
+    for startup in ('ok', 'slow', 'retried'):
+        add(startup=startup, trigger={'kind': 'stop', 'via': 'signal', 'at': 0, 'settled': True})
+    for ds in dsets_small:
+        add(daemons=ds, trigger={'kind': 'stop', 'via': 'signal', 'at': 10})
+        add(daemons=ds, handler_duration=4, trigger={'kind': 'stop', 'via': 'signal', 'at': 12, 'inflight': True})
+    add(peering=True, trigger={'kind': 'stop', 'via': 'signal', 'at': 10})
     # 2b. several startup / cleanup handlers over several rounds of run_activity (retries with distinct delays)
     multi = ['perm+retry', 'retry+perm', 'lateperm+ok', 'ok+retryperm', 'three-mixed', 'three-midperm', 'all-retried-ok']
     for startup in multi:
@@ -1160,6 +1220,10 @@ def grid(ctx: fw.Ctx) -> list[dict]:
             if kind == 'crd_error':
                 sc['trigger']['at'] = max(sc['trigger']['at'], 9.0)
                 sc['startup'] = r.choice(['none', 'ok', 'two', 'all-retried-ok'])
+            if kind == 'stop' and r.random() < 0.3:
+                sc['trigger']['via'] = 'signal'
+                if sc['trigger']['at'] == 0:
+                    sc['trigger']['settled'] = True
             if kind in ('stop', 'cancel') and r.random() < 0.3 and sc['trigger']['at'] >= 1:
                 sc['trigger']['inflight'] = True
             scs.append(sc)
